@@ -49,7 +49,7 @@ fn bases() -> Vec<(World, Vec<usize>)> {
     module(5, vec![]),
   ];
   out.push((
-    World { specs, resp, roots: vec![0], imports: vec![], kind: GraphKind::All, opts: Opts::default() },
+    World { specs, resp, roots: vec![0], imports: vec![], kind: GraphKind::All, opts: Opts::default(), ..Default::default() },
     vec![1, 2, 3, 4],
   ));
   // B: local files, two roots sharing a dependency, asset import and source map
@@ -75,6 +75,7 @@ fn bases() -> Vec<(World, Vec<usize>)> {
       imports: vec![],
       kind: GraphKind::CodeOnly,
       opts: Opts { unstable_text: true, ..Default::default() },
+      ..Default::default()
     },
     vec![2, 3, 4],
   ));
